@@ -205,6 +205,9 @@ pub struct Trace {
     pub fmt: BankFmt,
     pub lz4_mask: u32,
     pub ts0: u32,
+    /// 0: serial numbers increase through the run; 1: they restart in every file (repeated numbers); 2: later files
+    /// carry smaller numbers than earlier ones
+    pub serial_mode: u8,
 }
 
 impl Trace {
@@ -216,7 +219,11 @@ impl Trace {
         for f in &self.files {
             let mut evs = make_events(f, ts, self.fmt);
             for e in evs.iter_mut() {
-                e.serial += 1000 * k;
+                match self.serial_mode {
+                    0 => e.serial += 1000 * k,
+                    1 => {}
+                    _ => e.serial += 9000 - 1000 * k.min(8),
+                }
             }
             // advance ts as make_events did
             for l in f {
@@ -334,7 +341,7 @@ pub fn run(args: &Args) -> i32 {
             files.push(seq[pos..pos + s].to_vec());
             pos += s;
         }
-        let tr = Trace { run: 9000 + (idx % 7) as u32, files, fmt: [BankFmt::B32, BankFmt::B16, BankFmt::B32A][(idx / 2 % 3) as usize], lz4_mask: 0b1010, ts0: 0xFFFF_FF00u32.wrapping_add((idx as u32) * 64) };
+        let tr = Trace { run: 9000 + (idx % 7) as u32, files, fmt: [BankFmt::B32, BankFmt::B16, BankFmt::B32A][(idx / 2 % 3) as usize], lz4_mask: 0b1010, ts0: 0xFFFF_FF00u32.wrapping_add((idx as u32) * 64), serial_mode: 0 };
         let nf = tr.files.len();
         // reverse argument order = last permutation
         let perm_k = (1..=nf as u64).product::<u64>() - 1;
@@ -356,10 +363,10 @@ pub fn run(args: &Args) -> i32 {
             }
         }
     }
-    rep.run("argument-permutations", pplan.len() as u64 * 2, 300, true, "4 runs of 2, 3, 4, 4 files: every permutation of the file arguments x lz4 on none / alternate / all files x both programs", |idx, loc| {
+    rep.run("argument-permutations", pplan.len() as u64 * 2, 300, true, "4 runs of 2, 3, 4, 4 files: every permutation of the file arguments x lz4 on none / alternate / all files x both programs; serial numbers increasing through the run / restarting in every file / smaller in later files (cycled with the permutation)", |idx, loc| {
         let (i, k, m) = pplan[(idx / 2) as usize];
         let prog = if idx % 2 == 0 { Prog::Vertices } else { Prog::Scalers };
-        let tr = Trace { run: 9100, files: perm_seqs[i].clone(), fmt: BankFmt::B32, lz4_mask: m, ts0: 0x7FFF_FFF0 };
+        let tr = Trace { run: 9100, files: perm_seqs[i].clone(), fmt: BankFmt::B32, lz4_mask: m, ts0: 0x7FFF_FFF0, serial_mode: (k % 3) as u8 };
         conform(&tr, prog, k, None, json!({"run": i, "permutation_index": k, "lz4_mask": m}), &format!("p{idx}"), loc);
     });
 
@@ -371,7 +378,7 @@ pub fn run(args: &Args) -> i32 {
     ];
     rep.run("thread-counts", heavy_runs.len() as u64 * if thorough { 3 } else { 1 }, 600, true, "runs with full simulated events placed before trivial ones (so that a completion-order output would be reordered): RAYON_NUM_THREADS in {1, 2, 5, 16}, outputs must be byte-identical and equal to the reference (thorough: 3 repetitions)", |idx, loc| {
         let i = (idx % heavy_runs.len() as u64) as usize;
-        let tr = Trace { run: u32::MAX, files: heavy_runs[i].clone(), fmt: BankFmt::B32, lz4_mask: 0, ts0: 0xFFFF_0000 };
+        let tr = Trace { run: u32::MAX, files: heavy_runs[i].clone(), fmt: BankFmt::B32, lz4_mask: 0, ts0: 0xFFFF_0000, serial_mode: 0 };
         let mut outs = Vec::new();
         for t in [1usize, 2, 5, 16] {
             // same scratch tag => same paths => same command line in the CSV header
@@ -391,7 +398,7 @@ pub fn run(args: &Args) -> i32 {
         let nf = 1 + (k % 3) as usize;
         let per = n.div_ceil(nf);
         let files: Vec<Vec<L>> = seq.chunks(per).map(|c| c.to_vec()).collect();
-        let tr = Trace { run: 9200, files, fmt: BankFmt::B32A, lz4_mask: 0b10, ts0: 17 };
+        let tr = Trace { run: 9200, files, fmt: BankFmt::B32A, lz4_mask: 0b10, ts0: 17, serial_mode: (k % 3) as u8 };
         conform(&tr, prog, 0, Some(5), json!({"events": n, "files": nf}), &format!("w{idx}"), loc);
     });
 
